@@ -118,7 +118,7 @@ def main(tier):
                 if o1[1] != o2[1]:
                     diffs.append("value")
                 d1 = unhx(f1.get("d", "-")).decode("utf-8", "replace")
-                if f1.get("d") != f2.get("d") and d1.count("': ") < 2:   # a dict with several keys prints in Go-map order
+                if f1.get("d") != f2.get("d"):
                     diffs.append("process text")
                 if f1.get("seed") != f2.get("seed"):
                     diffs.append("final seed")
